@@ -170,6 +170,50 @@ func runC13(ci interface{}) Result {
 			}
 		}
 	}
+	// "above the bar rows of the frame that carries them": what a terminal makes of
+	// the output. Outside pop-completed mode (where finished bars stay on screen
+	// above later text) no bar row may ever stand above a line of text, and no bar
+	// may be on screen twice: text that is emitted without the frame's cursor
+	// movement lands below the previous frame's rows and leaves a stale row.
+	allNL := true
+	for i := range tr.Writes {
+		if w := &tr.Writes[i]; w.Err == nil && len(w.Text) > 0 && !strings.HasSuffix(w.Text, "\n") {
+			allNL = false
+		}
+	}
+	if !sc.Cfg.Pop && tr.PtyStream == nil && allNL {
+		vt := engine.NewVT(0, 0)
+		for k := range frames {
+			vt.Feed(frames[k].Raw)
+			if len(vt.Errors) > 0 {
+				break // terminal arithmetic is C04's business
+			}
+			barAbove, seenBar := -1, map[int]int{}
+			for idx, ln := range vt.Lines() {
+				pf := engine.ParseFrame(0, 0, []byte(ln+"\n"))
+				if len(pf.Lines) != 1 {
+					continue
+				}
+				switch l := pf.Lines[0]; l.Kind {
+				case "bar":
+					barAbove = idx
+					seenBar[l.Bar]++
+					if seenBar[l.Bar] == 2 {
+						r.Err, r.Kind = fmt.Errorf("after chunk %d (%q) bar %d is on the terminal twice: %q", k, frames[k].Raw, l.Bar, vt.Lines()), "stale-row"
+						return r
+					}
+				case "ext":
+					barAbove = idx
+				case "text":
+					if barAbove >= 0 && strings.TrimSpace(ln) != "" {
+						r.Err, r.Kind = fmt.Errorf("after chunk %d (%q) the text line %q stands below a bar row on the terminal: %q", k, frames[k].Raw, ln, vt.Lines()), "text-below-bars"
+						return r
+					}
+				}
+			}
+		}
+		r.Classes = append(r.Classes, "terminal-view-checked")
+	}
 	type placed struct {
 		w   *engine.WriteRec
 		pos int
